@@ -285,6 +285,51 @@ def check_files_shared(case: typing.Any, ctx: Ctx) -> Info:
     return Info(len(target_roots) >= 2 or bool(want_trans), classes, sample={"targets": [wsp.rel_path(ws, ws["defs"][i]) for i in targets], "roots": repr(roots_arg), "lookups": repr(lookups_arg)})
 
 
+def check_relink(case: typing.Any, ctx: Ctx) -> Info:
+    """Directory arguments that lead through a symbolic link, read several times in one process while the link is re-pointed
+    between the calls: each call sees what the path designates *then* - nothing about an earlier resolution may be remembered."""
+    import pydsdl
+
+    trees = case["trees"]
+    d = ctx.scratch()
+    try:
+        real = []
+        for k, ws in enumerate(trees):
+            base = os.path.join(d, "tree%d" % k)
+            os.makedirs(base)
+            wsp.write(ws, base)
+            real.append(base)
+        link = os.path.join(d, "current")
+        log = []
+        for step in case["steps"]:
+            k = step["tree"] % len(trees)
+            ws = trees[k]
+            if os.path.lexists(link):
+                os.remove(link)
+            os.symlink(real[k], link)
+            ri = step["root"] % len(ws["roots"])
+            via_link = [os.path.join(link, wsp.root_dir(ws, i)) for i in range(len(ws["roots"]))]
+            direct_roots = [os.path.join(real[k], wsp.root_dir(ws, i)) for i in range(len(ws["roots"]))]
+            where = "link -> tree%d, step %d of %s (earlier: %s); files %s" % (k, len(log) + 1, case["steps"], log, sorted(wsp.rel_path(ws, x) for x in ws["defs"]))
+            if step["api"] % 2 == 0:
+                got, _ = guarded(pydsdl.read_namespace, via_link[ri], via_link, what="read_namespace:through-relinked-symlink")
+                want, _ = guarded(pydsdl.read_namespace, direct_roots[ri], direct_roots, what="read_namespace:reference")
+                canon_got, canon_want = nu.canonical(ws, got, real[k]), nu.canonical(ws, want, real[k])
+                _check_namespace_result(ws, ri, got, real[k], where)
+            else:
+                n = len(ws["defs"])
+                targets = sorted({t % n for t in step["targets"]})
+                (gd, gt), _ = guarded(pydsdl.read_files, [os.path.join(link, wsp.rel_path(ws, ws["defs"][i])) for i in targets], via_link, what="read_files:through-relinked-symlink")
+                (wd, wt), _ = guarded(pydsdl.read_files, [os.path.join(real[k], wsp.rel_path(ws, ws["defs"][i])) for i in targets], direct_roots, what="read_files:reference")
+                canon_got, canon_want = [nu.canonical(ws, gd, real[k]), nu.canonical(ws, gt, real[k])], [nu.canonical(ws, wd, real[k]), nu.canonical(ws, wt, real[k])]
+            require(canon_got == canon_want, "result-depends-on-earlier-resolution-of-a-link", canon_want, canon_got, where)
+            log.append("tree%d" % k)
+    finally:
+        ctx.cleanup(d)
+    switched = len(set(log)) >= 2
+    return Info(switched, ["relink", "steps:%d" % len(log), "switched" if switched else "one-tree"], sample={"steps": case["steps"], "trees": [sorted(wsp.rel_path(w, x) for x in w["defs"]) for w in trees]})
+
+
 DIR_POOL = ["p0/ns", "p0/ns/sub", "p0/ns/sub/deeper", "p1/ns", "p1/NS", "p1/other", "p2/Other", "p2/nsx", "p3/ns/x/ns", "p2/ns", "p0/nsub", "p0/ns/s",
             # siblings whose names merely *start* like another directory's; as lookup directories only (they are no valid namespace
             # names, which matters only for a namespace that is actually read)
@@ -445,8 +490,15 @@ def parts(ctx: Ctx) -> typing.List[Part]:
             "salt": st.integers(1, 2**31),
         }
     )
+    relink_cases = st.fixed_dictionaries(
+        {
+            "trees": st.lists(wsp.definitions(max_defs=5, roots=2, shorts=["A", "B", "Msg"], subs=["sub"]), min_size=2, max_size=3),
+            "steps": st.lists(st.fixed_dictionaries({"tree": st.integers(0, 2), "root": st.integers(0, 2), "api": st.integers(0, 1), "targets": st.lists(st.integers(0, 9), min_size=1, max_size=3)}), min_size=2, max_size=4),
+        }
+    )
     return [
         Part("namespace", ns_cases, check_namespace, weight=4, cost=1.0),
+        Part("relink", relink_cases, check_relink, weight=1, cost=2.0),
         Part("files", file_cases, check_files, weight=3, cost=1.5),
         Part("files-same-name", shared_cases, check_files_shared, weight=2, cost=1.0),
         Part("dirsets", dir_cases, check_dirsets, weight=2, cost=0.7),
